@@ -13,7 +13,7 @@ for d in seeded/${pat}*/; do
   kind=$(python3 -c "import json; print(json.load(open('$d/meta.json')).get('kind','bug'))" 2>/dev/null)
   if ! git -C /repo diff --quiet; then echo "repo dirty"; exit 2; fi
   if ! git -C /repo apply "$PWD/$d/patch.diff" 2>/dev/null; then
-    if ! git -C /repo apply -3 "$PWD/$d/patch.diff" >/dev/null 2>&1; then echo "$n: PATCH-DOES-NOT-APPLY"; git -C /repo checkout -q -- . ; git -C /repo reset -q; continue; fi
+    if ! git -C /repo apply -3 "$PWD/$d/patch.diff" >/dev/null 2>&1; then echo "$n: PATCH-DOES-NOT-APPLY (the tree has moved on since the change was made)"; git -C /repo reset -q --hard HEAD; continue; fi
     git -C /repo reset -q
   fi
   if ! (cd /repo && go build ./... 2>/dev/null); then echo "$n: BUILD-FAILS"; git -C /repo checkout -q -- .; git -C /repo clean -fdq; continue; fi
